@@ -420,7 +420,7 @@ func (fe *FuncEnc) run(extra []*Clause) {
 			if len(exits) > 1 {
 				label = fmt.Sprintf("%s@ret%d", en.Label, ei)
 			}
-			fe.addOblig(&Oblig{Kind: "post", Props: en.Props, Label: label, Reach: ex.cond, Formula: f, Src: en.Src, Pos: fr.pos(ex.ret.Pos()), clause: en.Expr}, err)
+			fe.addOblig(&Oblig{Kind: "post", Props: en.Props, Label: label, Reach: ex.cond, Formula: f, Src: en.Src, Pos: fr.pos(ex.ret.Pos()), clause: en.Expr, nline: ex.nline}, err)
 		}
 		if len(exits) == 0 {
 			fe.note("function %s has no return", relName(fn))
@@ -469,7 +469,7 @@ func (fe *FuncEnc) run(extra []*Clause) {
 			if len(css) > 1 {
 				label = fmt.Sprintf("%s#%d", sk.Label, i)
 			}
-			fe.addOblig(&Oblig{Kind: "sink", Props: sk.Props, Label: label, Reach: cs.reach, Formula: f, Src: "at call " + sk.Call + " assert " + sk.Src, Pos: fr.pos(cs.instr.Pos())}, err)
+			fe.addOblig(&Oblig{Kind: "sink", Props: sk.Props, Label: label, Reach: cs.reach, Formula: f, Src: "at call " + sk.Call + " assert " + sk.Src, Pos: fr.pos(cs.instr.Pos()), nline: cs.nline}, err)
 		}
 	}
 	// obligation ids
